@@ -83,6 +83,7 @@ type Exec struct {
 	curFrame  *frame
 	Intrinsic map[string]Intrinsic
 	Stubs     map[string]bool // names of stubs actually used (evidence)
+	randQueue []uint64        // values the harness chose for the next fastrand() calls (nd_setrand)
 	Encoded   map[string]bool // functions whose bodies were executed (evidence)
 	sched     *scheduler
 	nextIsDeferred bool
@@ -225,6 +226,7 @@ func (x *Exec) threadID() int {
 
 // resetPath clears per-path state; call at the start of every explored path.
 func (x *Exec) resetPath() {
+	x.randQueue = nil
 	x.keySeq = 0
 	x.hashPairs = nil
 	x.tls = nil
